@@ -14,6 +14,7 @@ import (
 	"go/types"
 	"os"
 	"os/exec"
+	"slices"
 	"sort"
 	"strings"
 
@@ -40,7 +41,9 @@ var named = []string{"L", "dep.T", "otherdep.T", "LG[int]", "dep.G[int]", "dep.G
 	"dep.B8", "dep.R32", "dep.G[dep.B8]",
 	// packages of the module that are NAMED like a standard package, and that standard package, in both
 	// orders of first use within one file (codec/json before encoding/json; time before x/time)
-	"cjs.Codec", "sjs.RawMessage", "stm.Duration", "xtm.Tick", "dep.G2[cjs.Codec, sjs.RawMessage]", "dep.G2[stm.Duration, xtm.Tick]"}
+	"cjs.Codec", "sjs.RawMessage", "stm.Duration", "xtm.Tick", "dep.G2[cjs.Codec, sjs.RawMessage]", "dep.G2[stm.Duration, xtm.Tick]",
+	// a package whose only possible name is taken: module `item` (one path element) after x/item
+	"xit.Local", "sit.Item", "dep.G2[xit.Local, sit.Item]"}
 var mapKeys = []string{"string", "int", "L", "dep.T", "[2]int", "dep.K", "kwb.Options"}
 
 func atoms(full bool) []string {
@@ -95,12 +98,15 @@ func expressions(c *core.Ctx) []string {
 
 func baseModule(exprs []string) pipe.Tree {
 	var b strings.Builder
-	b.WriteString("package src\n\nimport (\n\t\"" + modPath + "/dep\"\n\totherdep \"" + modPath + "/other/dep\"\n\tyaml \"" + modPath + "/third/yaml.v3\"\n\tkwa \"" + modPath + "/conf/default\"\n\tkwb \"" + modPath + "/theme/default\"\n\tcjs \"" + modPath + "/codec/json\"\n\tsjs \"encoding/json\"\n\tstm \"time\"\n\txtm \"" + modPath + "/x/time\"\n)\n\nvar _ dep.T\nvar _ otherdep.T\nvar _ yaml.Node\nvar _ kwa.Options\nvar _ kwb.Options\nvar _ cjs.Codec\nvar _ sjs.RawMessage\nvar _ stm.Duration\nvar _ xtm.Tick\n\ntype L struct{ X int }\n\ntype LG[X any] struct{ V X }\n\n")
+	b.WriteString("package src\n\nimport (\n\t\"" + modPath + "/dep\"\n\totherdep \"" + modPath + "/other/dep\"\n\tyaml \"" + modPath + "/third/yaml.v3\"\n\tkwa \"" + modPath + "/conf/default\"\n\tkwb \"" + modPath + "/theme/default\"\n\tcjs \"" + modPath + "/codec/json\"\n\tsjs \"encoding/json\"\n\tstm \"time\"\n\txtm \"" + modPath + "/x/time\"\n\txit \"" + modPath + "/x/item\"\n\tsit \"item\"\n)\n\nvar _ dep.T\nvar _ otherdep.T\nvar _ yaml.Node\nvar _ kwa.Options\nvar _ kwb.Options\nvar _ cjs.Codec\nvar _ sjs.RawMessage\nvar _ stm.Duration\nvar _ xtm.Tick\nvar _ xit.Local\nvar _ sit.Item\n\ntype L struct{ X int }\n\ntype LG[X any] struct{ V X }\n\n")
 	for i, e := range exprs {
 		fmt.Fprintf(&b, "var V_%d %s\n", i, e)
 	}
 	return pipe.Tree{
-		"go.mod":             pipe.GoMod(modPath, "1.24"),
+		"go.mod":             pipe.GoMod(modPath, "1.24") + "\nrequire item v0.0.0\n\nreplace item => ./_item\n",
+		"_item/go.mod":       pipe.GoMod("item", "1.24"),
+		"_item/item.go":      "package item\n\ntype Item struct{ N int }\n",
+		"x/item/i.go":        "package item\n\ntype Local struct{ N int }\n",
 		"dep/dep.go":         "package dep\n\ntype T struct{ A int }\n\ntype K string\n\ntype B8 uint8\n\ntype R32 int32\n\ntype G[X any] struct{ V X }\n\ntype G2[X any, Y any] struct {\n\tV X\n\tW Y\n}\n",
 		"other/dep/dep.go":   "package dep\n\ntype T struct{ B string }\n",
 		"z/dep/dep.go":       "package dep\n\ntype Z int\n",
@@ -119,6 +125,8 @@ type Case struct {
 	Expr   string `json:"type_expression"`
 	Target string `json:"target"`
 	From   string `json:"rendered_from"` // go/types | reflect
+	// the named atoms rendered into the same file before this expression (they decide which names are taken)
+	Before []string `json:"rendered_before_in_the_same_file,omitempty"`
 }
 
 var targets = []struct{ name, pkg, dir string }{
@@ -178,6 +186,7 @@ func renderAll(targetPkg string, preClash bool, n int, get func(i int) snippet.S
 		gengo.NewSnippetWriter(buf, namer.NameSystems{"raw": nm}).Render(snippet.ID(gengotypes.Ref(modPath+"/z/dep", "Z")))
 	}
 	r := rendering{texts: make([]string, n), panics: make([]string, n)}
+	_ = tk.Imports() // (read before anything was rendered, too)
 	for i := 0; i < n; i++ {
 		func() {
 			defer func() {
@@ -188,6 +197,8 @@ func renderAll(targetPkg string, preClash bool, n int, get func(i int) snippet.S
 			buf := bytes.NewBuffer(nil)
 			gengo.NewSnippetWriter(buf, namer.NameSystems{"raw": nm}).Render(get(i))
 			r.texts[i] = buf.String()
+			// (a caller may look at the imports at any time: reading them changes nothing)
+			_ = tk.Imports()
 		}()
 	}
 	r.imports = map[string]string{}
@@ -372,6 +383,11 @@ func checkExprs(c *core.Ctx, exprs []string, withReflect bool) {
 		}
 		for i, e := range exprs {
 			cs := Case{Expr: e, Target: targets[j.ti].name, From: j.from}
+			for _, b := range exprs[:i] {
+				if slices.Contains(named, b) {
+					cs.Before = append(cs.Before, b)
+				}
+			}
 			c.Eval(1)
 			c.State(fmt.Sprintf("%s|%d|%v", j.from, j.ti, strings.Count(e, "[")+strings.Count(e, "*")))
 			if strings.ContainsAny(e, "*[ ") {
@@ -414,7 +430,7 @@ func expectedPaths(e, target string) []string {
 	set := map[string]bool{}
 	// qualifiers as written in package src
 	for q, p := range map[string]string{"otherdep.": modPath + "/other/dep", "dep.": modPath + "/dep", "yaml.": modPath + "/third/yaml.v3", "kwa.": modPath + "/conf/default", "kwb.": modPath + "/theme/default",
-		"cjs.": modPath + "/codec/json", "sjs.": "encoding/json", "stm.": "time", "xtm.": modPath + "/x/time"} {
+		"cjs.": modPath + "/codec/json", "sjs.": "encoding/json", "stm.": "time", "xtm.": modPath + "/x/time", "xit.": modPath + "/x/item", "sit.": "item"} {
 		rest := e
 		if q == "dep." {
 			rest = strings.ReplaceAll(e, "otherdep.", "")
@@ -425,7 +441,7 @@ func expectedPaths(e, target string) []string {
 	}
 	// local types of src: L, LG[...]
 	if target != modPath+"/src" {
-		stripped := strings.NewReplacer("otherdep.", "", "dep.", "", "yaml.", "", "kwa.", "", "kwb.", "", "cjs.", "", "sjs.", "", "stm.", "", "xtm.", "").Replace(e)
+		stripped := strings.NewReplacer("otherdep.", "", "dep.", "", "yaml.", "", "kwa.", "", "kwb.", "", "cjs.", "", "sjs.", "", "stm.", "", "xtm.", "", "xit.", "", "sit.", "").Replace(e)
 		for _, tok := range strings.FieldsFunc(stripped, func(r rune) bool {
 			return !(r == '_' || r >= 'A' && r <= 'Z' || r >= 'a' && r <= 'z' || r >= '0' && r <= '9')
 		}) {
@@ -451,7 +467,7 @@ func classify(expr, text string) string {
 // reflect.TypeOf of every expression.
 func renderReflect(dir string, exprs []string, ti int) (*rendering, error) {
 	var b strings.Builder
-	b.WriteString("package main\n\nimport (\n\t\"bytes\"\n\t\"encoding/json\"\n\t\"fmt\"\n\t\"os\"\n\t\"reflect\"\n\n\t\"github.com/octohelm/gengo/pkg/gengo\"\n\t\"github.com/octohelm/gengo/pkg/gengo/snippet\"\n\t\"github.com/octohelm/gengo/pkg/namer\"\n\tgengotypes \"github.com/octohelm/gengo/pkg/types\"\n\t. \"" + modPath + "/src\"\n\t\"" + modPath + "/dep\"\n\totherdep \"" + modPath + "/other/dep\"\n\tyaml \"" + modPath + "/third/yaml.v3\"\n\tkwa \"" + modPath + "/conf/default\"\n\tkwb \"" + modPath + "/theme/default\"\n\tcjs \"" + modPath + "/codec/json\"\n\tsjs \"encoding/json\"\n\tstm \"time\"\n\txtm \"" + modPath + "/x/time\"\n)\n\nvar _ dep.T\nvar _ otherdep.T\nvar _ yaml.Node\nvar _ kwa.Options\nvar _ kwb.Options\nvar _ cjs.Codec\nvar _ sjs.RawMessage\nvar _ stm.Duration\nvar _ xtm.Tick\nvar _ L\n\n")
+	b.WriteString("package main\n\nimport (\n\t\"bytes\"\n\t\"encoding/json\"\n\t\"fmt\"\n\t\"os\"\n\t\"reflect\"\n\n\t\"github.com/octohelm/gengo/pkg/gengo\"\n\t\"github.com/octohelm/gengo/pkg/gengo/snippet\"\n\t\"github.com/octohelm/gengo/pkg/namer\"\n\tgengotypes \"github.com/octohelm/gengo/pkg/types\"\n\t. \"" + modPath + "/src\"\n\t\"" + modPath + "/dep\"\n\totherdep \"" + modPath + "/other/dep\"\n\tyaml \"" + modPath + "/third/yaml.v3\"\n\tkwa \"" + modPath + "/conf/default\"\n\tkwb \"" + modPath + "/theme/default\"\n\tcjs \"" + modPath + "/codec/json\"\n\tsjs \"encoding/json\"\n\tstm \"time\"\n\txtm \"" + modPath + "/x/time\"\n\txit \"" + modPath + "/x/item\"\n\tsit \"item\"\n)\n\nvar _ dep.T\nvar _ otherdep.T\nvar _ yaml.Node\nvar _ kwa.Options\nvar _ kwb.Options\nvar _ cjs.Codec\nvar _ sjs.RawMessage\nvar _ stm.Duration\nvar _ xtm.Tick\nvar _ xit.Local\nvar _ sit.Item\nvar _ L\n\n")
 	b.WriteString("var types = []reflect.Type{\n")
 	for _, e := range exprs {
 		fmt.Fprintf(&b, "\treflect.TypeOf((*%s)(nil)).Elem(),\n", e)
@@ -465,7 +481,7 @@ func renderReflect(dir string, exprs []string, ti int) (*rendering, error) {
 	if err := os.WriteFile(dir+"/cmd/reflectrender/main.go", []byte(b.String()), 0o644); err != nil {
 		return nil, err
 	}
-	gomod := pipe.GoMod(modPath, "1.24.2") + "\nrequire github.com/octohelm/gengo v0.0.0\n\nreplace github.com/octohelm/gengo => " + core.RepoDir() + "\n"
+	gomod := pipe.GoMod(modPath, "1.24.2") + "\nrequire github.com/octohelm/gengo v0.0.0\n\nrequire item v0.0.0\n\nreplace github.com/octohelm/gengo => " + core.RepoDir() + "\n\nreplace item => ./_item\n"
 	if err := os.WriteFile(dir+"/go.mod", []byte(gomod), 0o644); err != nil {
 		return nil, err
 	}
@@ -528,7 +544,7 @@ func replay(c *core.Ctx, raw json.RawMessage) {
 		c.Internal("bad case: %v", err)
 		return
 	}
-	checkExprs(c, []string{cs.Expr}, true)
+	checkExprs(c, append(append([]string{}, cs.Before...), cs.Expr), true)
 }
 
 func init() {
